@@ -90,6 +90,34 @@ var gRepart = bigslice.Func(func(r bigslice.Slice, mul, add int) bigslice.Slice 
 	return bigslice.Repartition(r, func(nshard, k, v int) int { return (mul*k + add) % nshard })
 })
 
+// joinCode folds one Cogroup row (k, a, b) into an int so that results keep the
+// (int, int) row type: counts and sums of both groups.
+func joinCode(a, b []int) int {
+	sa, sb := 0, 0
+	for _, x := range a {
+		sa += x
+	}
+	for _, x := range b {
+		sb += x
+	}
+	return (len(a)*10+len(b))*1000000 + sa*1000 + sb
+}
+
+// gJoin1: ONE Func that sends the result into TWO different shuffles:
+// Cogroup(Reshard(r,2), Repartition(r, (2k+1) mod n)).
+var gJoin1 = bigslice.Func(func(r bigslice.Slice) bigslice.Slice {
+	a := bigslice.Reshard(r, 2)
+	b := bigslice.Repartition(r, func(nshard, k, v int) int { return (2*k + 1) % nshard })
+	return bigslice.Map(bigslice.Cogroup(a, b), func(k int, x, y []int) (int, int) { return k, joinCode(x, y) })
+})
+
+// gJoin2: Cogroup(Reduce(r,+), r): the result goes into the Reduce's shuffle and
+// directly into the Cogroup's shuffle.
+var gJoin2 = bigslice.Func(func(r bigslice.Slice) bigslice.Slice {
+	a := bigslice.Reduce(r, func(x, y int) int { return x + y })
+	return bigslice.Map(bigslice.Cogroup(a, r), func(k int, x, y []int) (int, int) { return k, joinCode(x, y) })
+})
+
 // ---- model --------------------------------------------------------------------
 
 type row [2]int
@@ -150,6 +178,29 @@ func modelUse(kind byte, src []row) []row {
 		return reduceRows(src)
 	case 'A', 'B', 'Q', 'U':
 		return src // a redistribution keeps the multiset of rows
+	case 'J', 'C':
+		groups := map[int][]int{}
+		var ks []int
+		for _, r := range src {
+			if _, ok := groups[r[0]]; !ok {
+				ks = append(ks, r[0])
+			}
+			groups[r[0]] = append(groups[r[0]], r[1])
+		}
+		sort.Ints(ks)
+		var out []row
+		for _, k := range ks {
+			a := groups[k]
+			if kind == 'C' {
+				sum := 0
+				for _, x := range a {
+					sum += x
+				}
+				a = []int{sum}
+			}
+			out = append(out, row{k, joinCode(a, groups[k])})
+		}
+		return out
 	}
 	panic("kind")
 }
@@ -342,9 +393,13 @@ func (w *world) runSrc(ctx context.Context, tag int) (*exec.Result, error) {
 }
 
 var opNames = map[byte]string{'P': "pipelined", 'H': "shuffle", 'D': "direct-reduce",
-	'A': "direct-reshard-2", 'B': "direct-reshard-3", 'Q': "direct-repartition-k", 'U': "direct-repartition-2k+1"}
+	'A': "direct-reshard-2", 'B': "direct-reshard-3", 'Q': "direct-repartition-k", 'U': "direct-repartition-2k+1",
+	'J': "cogroup-of-reshard-and-repartition", 'C': "cogroup-of-reduce-and-result"}
 
-func isDirect(c byte) bool { return strings.IndexByte("DABQU", c) >= 0 }
+func isDirect(c byte) bool { return strings.IndexByte("DABQUJC", c) >= 0 }
+
+// isJoin: ops whose single Func re-shuffles the result twice.
+func isJoin(c byte) bool { return c == 'J' || c == 'C' }
 
 // step executes op number opi; it returns false when the history cannot continue.
 func (w *world) step(ctx context.Context, opi int) bool {
@@ -356,7 +411,7 @@ func (w *world) step(ctx context.Context, opi int) bool {
 	}
 	// outcome of the op, tagged with what happened to its operand before
 	tag := ""
-	if strings.IndexByte("SPHDXABQU", op[0]) >= 0 {
+	if strings.IndexByte("SPHDXABQUJC", op[0]) >= 0 {
 		tag = "[" + w.cond(idx) + "]"
 	}
 	out := func(s string) { w.rec.Outcomes = append(w.rec.Outcomes, op+tag+":"+s) }
@@ -421,7 +476,7 @@ func (w *world) step(ctx context.Context, opi int) bool {
 				mech(fmt.Sprintf("scan/gone/error-after-%d-rows", len(rows)))
 			}
 		}
-	case 'P', 'H', 'D', 'A', 'B', 'Q', 'U':
+	case 'P', 'H', 'D', 'A', 'B', 'Q', 'U', 'J', 'C':
 		src, _ := modelSrc(w.prog, idx)
 		want := sorted(fmtRows(modelUse(op[0], src)))
 		cond := w.cond(idx)
@@ -441,8 +496,12 @@ func (w *world) step(ctx context.Context, opi int) bool {
 			g, args = gReshard, append(args, 3)
 		case 'Q':
 			g, args = gRepart, append(args, 1, 0)
-		default: // 'U'
+		case 'U':
 			g, args = gRepart, append(args, 2, 1)
+		case 'J':
+			g = gJoin1
+		default: // 'C'
+			g = gJoin2
 		}
 		// earlier direct redistributions of the same result
 		earlier := string(w.directs[idx])
@@ -459,13 +518,16 @@ func (w *world) step(ctx context.Context, opi int) bool {
 			w.directs[idx] = append(w.directs[idx], op[0])
 		}
 		sigOf := func(oracle string) string {
+			short := map[string]string{"func-over-result-fails": "fails", "scan-of-fresh-func-result-fails": "scan-fails", "func-over-result-wrong-rows": "wrong-rows"}[oracle]
 			switch {
+			case isJoin(op[0]):
+				// one Func that sends the result into two shuffles
+				return "two-direct-reshuffles-in-one-func-" + short
 			case isDirect(op[0]) && relation == "":
 				// first direct redistribution of this result (DESIGN §9 #5, C08-1): one signature per executor
 				return "direct-shuffle-of-result"
 			case isDirect(op[0]):
 				// a result that was already re-shuffled directly by an earlier invocation
-				short := map[string]string{"func-over-result-fails": "fails", "scan-of-fresh-func-result-fails": "scan-fails", "func-over-result-wrong-rows": "wrong-rows"}[oracle]
 				return "second-direct-reshuffle-" + short + "/" + relation
 			}
 			return oracle + "/" + opNames[op[0]] + "/" + cond
@@ -807,6 +869,33 @@ func enumerateB(kind string, length int) [][]string {
 	return out
 }
 
+// enumerateC lists the histories of exactly the given length of space C: R followed
+// by operations on r0 out of J0 C0 (one Func, two shuffles of the result), Q0,
+// Discard X0 and (cluster) Kill K0, with at least one J0 or C0.
+func enumerateC(kind string, length int) [][]string {
+	alpha := []string{"J0", "C0", "Q0", "X0"}
+	if kind == "vsys" {
+		alpha = append(alpha, "K0")
+	}
+	var out [][]string
+	var rec func(h []string, join bool)
+	rec = func(h []string, join bool) {
+		if len(h) == length {
+			if join {
+				out = append(out, append([]string{}, h...))
+			}
+			return
+		}
+		for _, o := range alpha {
+			rec(append(h, o), join || isJoin(o[0]))
+		}
+	}
+	if length >= 2 {
+		rec([]string{"R"}, false)
+	}
+	return out
+}
+
 // runBatch executes jobs in child processes (a new child after a hang or crash)
 // and returns one record per job.
 func runBatch(self string, jobs []job) []*histRec {
@@ -979,9 +1068,6 @@ func main() {
 				}
 				return depth - 1
 			}
-			if prog == "s2" {
-				return depth
-			}
 			return depth - 1
 		}
 		if r.Thorough() {
@@ -1020,10 +1106,12 @@ func main() {
 	} else {
 		for l := 1; l <= depth; l++ {
 			for _, kind := range []string{"local", "vsys"} {
-				for _, space := range []string{"A", "B"} {
+				for _, space := range []string{"A", "B", "C"} {
 					hs := enumerate(kind, l)
 					if space == "B" {
 						hs = enumerateB(kind, l)
+					} else if space == "C" {
+						hs = enumerateC(kind, l)
 					}
 					for _, prog := range progs {
 						if l > depthOf(space, kind, prog) {
@@ -1176,7 +1264,7 @@ func main() {
 	}
 
 	// ---- samples: a few histories written out
-	for _, want := range []string{"local/s2 R X0 S0", "local/sh R X0 H0 S0", "vsys/s2 R K0 S0", "vsys/s2 R K0 P0 S0", "vsys/sh R X0 K1 H0", "local/s1 R R X0 P1", "vsys/s3 R A0 Q0", "vsys/s3 R Q0 X0 U0", "vsys/s2 R B0 K0 U0"} {
+	for _, want := range []string{"local/s2 R X0 S0", "local/sh R X0 H0 S0", "vsys/s2 R K0 S0", "vsys/s2 R K0 P0 S0", "vsys/sh R X0 K1 H0", "local/s1 R R X0 P1", "vsys/s3 R A0 Q0", "vsys/s3 R Q0 X0 U0", "vsys/s2 R J0 K0 C0"} {
 		for _, rec := range recs {
 			if rec != nil && rec.Kind+"/"+rec.Prog+" "+strings.Join(rec.Ops, " ") == want {
 				r.Sample(map[string]interface{}{"executor": rec.Kind, "program": rec.Prog, "history": strings.Join(rec.Ops, " "),
@@ -1187,7 +1275,7 @@ func main() {
 	}
 
 	depthTable := map[string]int{}
-	for _, space := range []string{"A", "B"} {
+	for _, space := range []string{"A", "B", "C"} {
 		for _, kind := range []string{"local", "vsys"} {
 			for _, prog := range progs {
 				depthTable[space+"/"+kind+"/"+prog] = depthOf(space, kind, prog)
@@ -1196,7 +1284,7 @@ func main() {
 	}
 	layerH := map[string]interface{}{
 		"depth":                     depthTable,
-		"alphabet":                  "space A: R | S<i> P<i> H<i> X<i> for i in live results (max 2) | K0 K1 (cluster only).  space B: R then {D0 A0 B0 Q0 U0 X0 | K0 (cluster only)}* with at least one direct redistribution; D=Reduce, A=Reshard(r,2), B=Reshard(r,3), Q=Repartition(r, k mod n), U=Repartition(r, (2k+1) mod n), each applied DIRECTLY to the result",
+		"alphabet":                  "space A: R | S<i> P<i> H<i> X<i> for i in live results (max 2) | K0 K1 (cluster only).  space B: R then {D0 A0 B0 Q0 U0 X0 | K0 (cluster only)}* with at least one direct redistribution; D=Reduce, A=Reshard(r,2), B=Reshard(r,3), Q=Repartition(r, k mod n), U=Repartition(r, (2k+1) mod n), each applied DIRECTLY to the result.  space C: R then {J0 C0 Q0 X0 | K0 (cluster only)}* with at least one J0/C0; J=Cogroup(Reshard(r,2),Repartition(r,(2k+1) mod n)), C=Cogroup(Reduce(r,+), r), rows folded to (k, counts and sums of both groups)",
 		"programs":                  "s1/s2/s3: Const(1/2/3 shards, 5 rows)->Map; sh: Const(2)->Map->Reduce (result out of a shuffle)",
 		"histories_enumerated":      len(jobs),
 		"histories_executed":        executed,
@@ -1211,7 +1299,7 @@ func main() {
 		"signatures_first_pass":     len(sigOrder),
 		"signatures_not_confirmed":  unconfirmed,
 		"unconfirmed":               unconfDetail,
-		"rule":                      "two spaces of histories, each history replayed in a fresh session (state de-duplication is used for counting only). Space A = all histories over the general alphabet (no direct redistribution) up to the depth in the depth table; space B = all histories R·w, w over five DIFFERENT direct redistributions of r0 plus Discard and (cluster) Kill, containing at least one direct redistribution, up to the depth in the table, so that every ordered pair of direct re-shuffles of one result occurs, also with a Discard or Kill in between. To keep the cluster part affordable (about 0.5 CPU-seconds per history) space A is one level less deep on the cluster for all programs but s2 (quick) / for s3 and sh (thorough), and space B one level less deep for sh (quick) / s1 and sh (thorough); direct redistributions are not mixed with P/H/second results. Cluster: verifsystem, 2 procs/machine, Parallelism(4), fast retries, keepalive 20/200/100 ms, DoShuffleReaders=false; an error/hang signature is reported only when one of its simplest histories reproduces it 3 of 3 times, a wrong-rows signature on its first occurrence (re-executed, reproduction count recorded)",
+		"rule":                      "three spaces of histories, each history replayed in a fresh session (state de-duplication is used for counting only). Space A = all histories over the general alphabet (no direct redistribution) up to the depth in the depth table; space B = all histories R·w, w over five DIFFERENT direct redistributions of r0 plus Discard and (cluster) Kill, containing at least one direct redistribution, up to the depth in the table, so that every ordered pair of direct re-shuffles of one result occurs, also with a Discard or Kill in between; space C = all histories R·w, w over {J0 C0 Q0 X0, K0 on the cluster} containing at least one J0 or C0, where J/C are ONE Func that sends the result into TWO shuffles (J: Cogroup(Reshard(r,2), Repartition(r,(2k+1) mod n)); C: Cogroup(Reduce(r,+), r)), same depths as space B. To keep the cluster part affordable (about 0.5 CPU-seconds per history) space A is one level less deep on the cluster for all programs (quick) / for s3 and sh (thorough), and space B one level less deep for sh (quick) / s1 and sh (thorough); direct redistributions are not mixed with P/H/second results. Cluster: verifsystem, 2 procs/machine, Parallelism(4), fast retries, keepalive 20/200/100 ms, DoShuffleReaders=false; an error/hang signature is reported only when one of its simplest histories reproduces it 3 of 3 times, a wrong-rows signature on its first occurrence (re-executed, reproduction count recorded)",
 	}
 
 	// ---- layer S
